@@ -47,10 +47,12 @@ def universe(min_size=3, max_size=10, max_key=64):
 
 
 # multiplicities incl. values adjacent to 2^32-1 and beyond
-def multiplicities(big=True):
+def multiplicities(big=True, huge=False):
     small = st.one_of(st.sampled_from([0, 1, 1, 1, 2, 3, 5, 7, 100]), st.integers(0, 50))
     if not big:
         return small
+    if huge:  # linear count-min takes any Python int (it clamps before the kernel is called)
+        return st.one_of(multiplicities(True), multiplicities(True), multiplicities(True), st.sampled_from([2**63, 2**64 - 1, 2**64, 2**64 + 1, 10**30]))
     return st.one_of(
         small,
         small,
